@@ -36,6 +36,31 @@ type c12Case struct {
 	Jitter     int          `json:"jitter"`
 }
 
+// genIntrospection draws an introspection request: the whole schema or one type, deprecated members
+// included, excluded or not mentioned.
+func genIntrospection(t *rapid.T, s *hx.Schema, label string) string {
+	inc := rapid.SampledFrom([]string{"(includeDeprecated:true)", "(includeDeprecated:false)", ""}).Draw(t, label+"inc")
+	body := rapid.SampledFrom([]string{
+		"name kind fields" + inc + "{name type{name kind ofType{name kind}} args{name defaultValue}} interfaces{name} possibleTypes{name} enumValues" + inc + "{name}",
+		"name fields" + inc + "{name isDeprecated}",
+		"name possibleTypes{name} interfaces{name}",
+		"name kind inputFields{name} enumValues" + inc + "{name isDeprecated deprecationReason}",
+	}).Draw(t, label+"body")
+	switch rapid.IntRange(0, 3).Draw(t, label+"shape") {
+	case 0:
+		return c12Introspection
+	case 1:
+		return "{__schema{queryType{name} types{" + body + "} directives{name locations args{name}}}}"
+	default:
+		var names []string
+		for _, td := range s.Types {
+			names = append(names, td.Name)
+		}
+		names = append(names, "__Type", "__Schema", "Nope")
+		return fmt.Sprintf("{__type(name:%q){%s}}", rapid.SampledFrom(names).Draw(t, label+"type"), body)
+	}
+}
+
 func goVars12(kvs []hx.KV) map[string]interface{} {
 	if len(kvs) == 0 {
 		return nil
@@ -87,8 +112,8 @@ func genCaseC12(t *rapid.T) *c12Case {
 	c := &c12Case{Base: base}
 	nReq := rapid.IntRange(4, 24).Draw(t, "nRequests")
 	for i := 0; i < nReq; i++ {
-		if rapid.IntRange(0, 5).Draw(t, fmt.Sprintf("r%dintro", i)) == 0 {
-			c.Requests = append(c.Requests, c12Request{Text: c12Introspection})
+		if rapid.IntRange(0, 4).Draw(t, fmt.Sprintf("r%dintro", i)) == 0 {
+			c.Requests = append(c.Requests, c12Request{Text: genIntrospection(t, base.Schema, fmt.Sprintf("r%di", i))})
 			continue
 		}
 		p := exec.Profile{MaxDepth: rapid.IntRange(2, 4).Draw(t, fmt.Sprintf("r%ddepth", i)), Args: true, Abstract: hasAbstract}
@@ -96,8 +121,25 @@ func genCaseC12(t *rapid.T) *c12Case {
 		c.Requests = append(c.Requests, c12Request{Text: d.Render(hx.Layout{Mode: "single"}).Text, Op: d.Ops[0].Name, Vars: vars})
 	}
 	c.Goroutines = rapid.SampledFrom([]int{2, 3, 4, 8, 16, 2 * runtime.NumCPU()}).Draw(t, "goroutines")
-	for i := range c.Requests {
-		c.Assignment = append(c.Assignment, rapid.IntRange(0, c.Goroutines-1).Draw(t, fmt.Sprintf("assign%d", i)))
+	if rapid.IntRange(0, 2).Draw(t, "burst") == 0 {
+		// a burst: a few requests, every goroutine issues its own copy of each at the same moment
+		// (all of them in the first-use window of whatever those requests touch)
+		k := rapid.IntRange(1, 3).Draw(t, "burstRequests")
+		if k > len(c.Requests) {
+			k = len(c.Requests)
+		}
+		distinct := c.Requests[:k]
+		c.Requests = nil
+		for g := 0; g < c.Goroutines; g++ {
+			for _, r := range distinct {
+				c.Requests = append(c.Requests, r)
+				c.Assignment = append(c.Assignment, g)
+			}
+		}
+	} else {
+		for i := range c.Requests {
+			c.Assignment = append(c.Assignment, rapid.IntRange(0, c.Goroutines-1).Draw(t, fmt.Sprintf("assign%d", i)))
+		}
 	}
 	c.Jitter = rapid.IntRange(0, 3).Draw(t, "jitter")
 	return c
